@@ -70,6 +70,22 @@ class ScriptedRandom(random.Random):
         raise ScriptExhausted()
 
 
+class ReorderedSet(set):
+    """a set with the same members whose iteration order is rotated by k and reversed for odd k (len, membership, add, discard
+    are the set's own)"""
+
+    def __init__(self, items, k):
+        super().__init__(items)
+        self.k = k
+
+    def __iter__(self):
+        items = list(set.__iter__(self))
+        if items:
+            r = self.k % len(items)
+            items = items[r:] + items[:r]
+        return iter(items[::-1] if self.k % 2 else items)
+
+
 def _mesa():
     core.import_mesa()
     import mesa
@@ -243,7 +259,11 @@ class GridImpl:
             g.swap_pos(A[int(w[1])], A[int(w[2])])
             return "ok", None
         if k == "mte":
-            _, script = split_script(w)
+            head, script = split_script(w)
+            if len(head) == 3:
+                # `mte a R<k>`: the empties set is first replaced by an equal set that iterates in another order (C01's hash-order
+                # clause for this group: sorted(self.empties) must make the pick independent of it; the model ignores R<k>)
+                g._empties = ReorderedSet(g.empties, int(head[2][1:]))
             self.rng.load(script)
             g.move_to_empty(A[int(w[1])])
             return "ok", None
@@ -819,7 +839,8 @@ def gen_c08(R, tier, rejecting=False):
             b.add(f"swap {a} {c}")
         elif k < 0.67 and (placed or unplaced) and not (late_reads and step < n_ops // 2):
             a = R.choice(placed) if placed and R.random() < 0.93 else R.randrange(nag)
-            b.add(f"mte {a} : " + " ".join(map(str, mte_script(R, impl))))
+            rot = f" R{R.randrange(1, 12)}" if (not rejecting and R.random() < 0.3) else ""  # reordered empties set
+            b.add(f"mte {a}{rot} : " + " ".join(map(str, mte_script(R, impl))))
         elif k < 0.80 and (placed or unplaced):
             a = R.choice(placed) if placed and R.random() < 0.93 else R.randrange(nag)
             n = R.choice([0, 1, 1, 2, 2, 3, 4, 5])
